@@ -307,6 +307,7 @@ func (prophet *Prophet) SenderForBundle(bp BundleDescriptor) (sender []cla.Conve
 	destination := bndl.PrimaryBlock.Destination
 	sender = make([]cla.ConvergenceSender, 0)
 
+	prophet.dataMutex.RLock()
 	for _, cs := range prophet.c.claManager.Sender() {
 		peerID := cs.GetPeerEndpointID()
 		peerPred := prophet.peerPredictabilities[peerID][destination]
@@ -354,6 +355,7 @@ func (prophet *Prophet) SenderForBundle(bp BundleDescriptor) (sender []cla.Conve
 			}).Debug("Peer is not good forwarding candidate")
 		}
 	}
+	prophet.dataMutex.RUnlock()
 
 	if len(sender) == 0 {
 		log.WithFields(
